@@ -1,4 +1,79 @@
-From Mammoth Require Import Options.
-Example c07_placeholder : style_map_lines [] = [].
-Proof. reflexivity. Qed.
-Print Assumptions c07_placeholder.
+(* C07 — reading a style map never fails and never hangs. *)
+From Mammoth Require Import Options DefaultStyleMap TokenRules RegexSpec RegexFacts ParserSpec ParserFacts.
+Local Open Scope N_scope.
+
+(* ---------- totality ---------- *)
+(* a line (no newline inside) always tokenises: the catch-all rule applies and no rule matches the empty string *)
+Theorem C07_tokenise_total (s : str) : no_newline s -> exists ts, tokenise s = Ok ts.
+Proof. exact (tokenise_total s). Qed.
+
+(* the token iterator never reads past END and no parser loop runs out of fuel *)
+Theorem C07_parser_in_bounds (ts : toks) : wf_toks ts -> forall w, parse_style_mapping ts <> Crash w.
+Proof. exact (parse_style_mapping_no_crash ts). Qed.
+
+(* every line is either applied or rejected by LineParseError (reported, then ignored) — never an exception *)
+Theorem C07_line_total (s : str) : no_newline s -> exists r, read_style_mapping s = Ok r.
+Proof. exact (read_style_mapping_total s). Qed.
+
+(* blank lines and # lines are not read at all *)
+Theorem C07_lines (text l : str) : In l (style_map_lines text) -> no_newline l /\ l <> [] /\ hd 0 l <> 35.
+Proof. exact (style_map_lines_ok text l). Qed.
+
+(* for EVERY text: the result is the mappings of the readable lines, in order, and one warning
+   quoting each distinct unreadable line, in order of first occurrence *)
+Theorem C07_read_style_map (text : str) :
+  read_style_map text
+  = Ok (filter_map good_line (style_map_lines text),
+        unique str_eqb (filter_map bad_line (style_map_lines text))).
+Proof. exact (read_style_map_spec text). Qed.
+
+Theorem C07_applied_or_reported (text l : str) :
+  In l (style_map_lines text) ->
+  (good_line l <> None /\ bad_line l = None) \/ (good_line l = None /\ bad_line l <> None).
+Proof. exact (read_style_map_partition text l). Qed.
+
+Theorem C07_warnings_once (l : list str) :
+  NoDup (unique str_eqb l) /\ (forall x, In x (unique str_eqb l) <-> In x l).
+Proof. exact (unique_spec l). Qed.
+
+(* ---------- no exponential backtracking (cost model of a priority-order backtracking matcher) ---------- *)
+(* the token rules read from the source are deterministic: in every repetition the alternatives
+   start with pairwise disjoint character classes.  FALSE for the STRING rule before fix 885c918. *)
+Theorem C07_token_rules_deterministic : forallb (fun p => rule_det (snd p)) token_rules = true.
+Proof. exact token_rules_deterministic. Qed.
+
+Theorem C07_det_rule_polynomial (r : rule) (s : str) :
+  rule_det r = true -> re_steps r s <= bound r (N.of_nat (length s)).
+Proof. exact (det_match_bound r s). Qed.
+
+Theorem C07_bound_is_polynomial (r : rule) :
+  exists c, forall n, bound r n <= c * (n + 1) ^ N.of_nat (stars r).
+Proof. exact (bound_poly r). Qed.
+
+Theorem C07_token_rule_linear :
+  exists c, forall ty r s, In (ty, r) token_rules -> re_steps r s <= c * (N.of_nat (length s) + 1).
+Proof. exact token_rule_steps_linear. Qed.
+
+Theorem C07_tokenise_quadratic :
+  exists c, forall s, tokenise_steps s <= c * (N.of_nat (length s) + 1) * (N.of_nat (length s) + 1).
+Proof. exact tokenise_steps_quadratic. Qed.
+
+(* non-vacuity / witness: the old STRING rule is rejected by the determinism test and its cost on
+   quote + 20 backslashes is 85967 steps; the current rule needs 65 *)
+Example C07_old_rule_refuted :
+  let old := [AAlt [[CSet [(39, 39)] false]]; AStar [[CSet [(92, 92)] false; CAny]; [CNot [(39, 39)] false]]; AAlt [[CSet [(39, 39)] false]]] in
+  rule_det old = false /\ re_steps old (39 :: repeat 92 20) = 85967.
+Proof. vm_compute. split; reflexivity. Qed.
+
+Print Assumptions C07_tokenise_total.
+Print Assumptions C07_parser_in_bounds.
+Print Assumptions C07_line_total.
+Print Assumptions C07_lines.
+Print Assumptions C07_read_style_map.
+Print Assumptions C07_applied_or_reported.
+Print Assumptions C07_warnings_once.
+Print Assumptions C07_token_rules_deterministic.
+Print Assumptions C07_det_rule_polynomial.
+Print Assumptions C07_bound_is_polynomial.
+Print Assumptions C07_token_rule_linear.
+Print Assumptions C07_tokenise_quadratic.
